@@ -436,6 +436,11 @@ fn one_run(log: &mut EvLog, mlog: &mut Option<EvLog>, seed: u64, thorough: bool,
     };
     let mut pb = fdl::ParametersBuilder::new(maddr, baud);
     pb.highest_station_address(hsa).slot_bits(slot).max_retry_limit(retry).gap_wait_rotations(rng.gen_range(1..=20)).min_tsdr(min_tsdr);
+    // a tight target rotation time makes the token "late": the master is then asked for high-priority traffic only
+    let ttr_bits: Option<u32> = if sched.is_none() && rng.gen_bool(0.3) { Some([256u32, 500, 1000, 2000][rng.gen_range(0..4)]) } else { None };
+    if let Some(t) = ttr_bits {
+        pb.token_rotation_bits(t);
+    }
     if let Some(ms) = wd_ms {
         pb.watchdog_timeout(profirust::time::Duration::from_millis(ms));
     }
